@@ -44,8 +44,8 @@ let register () =
     | [kind] ->
         let i = n_of_int 5 in
         let b = [n_of_int 5] in
-        let ((r1, p1), s1) = BulkWrite.cs_store_seq [] [] i b (kind = "has") (kind = "store") in
-        let ((r2, _), s2) = BulkWrite.cs_store_seq p1 s1 i b false false in
+        let ((r1, p1), s1) = BulkWrite.cs_store_seq true [] [] i b (kind = "has") (kind = "store") in
+        let ((r2, _), s2) = BulkWrite.cs_store_seq true p1 s1 i b false false in
         let n r = if r then "nil" else "err" in
         Printf.sprintf "%s,%s %d" (n r1) (n r2) (if BulkWrite.has s2 i then 1 else 0)
     | _ -> "ERR args")
